@@ -123,7 +123,71 @@ class ReturnElse(ast.NodeTransformer):
         return node
 
 
-MODES = {"flip-compare": Flip, "swap-if-else": SwapIf, "not-in": NotIn, "return-else": ReturnElse}
+class SplitAnd(ast.NodeTransformer):
+    """if a and b: BODY   (no else)  ->  if a: if b: BODY"""
+    n = 0
+
+    def visit_If(self, node):
+        self.generic_visit(node)
+        if not node.orelse and isinstance(node.test, ast.BoolOp) and isinstance(node.test.op, ast.And) and len(node.test.values) >= 2:
+            SplitAnd.n += 1
+            inner = node.body
+            for v in reversed(node.test.values[1:]):
+                inner = [ast.copy_location(ast.If(test=v, body=inner, orelse=[]), node)]
+            return ast.copy_location(ast.If(test=node.test.values[0], body=inner, orelse=[]), node)
+        return node
+
+
+class MergeIf(ast.NodeTransformer):
+    """if a: if b: BODY  (neither has an else, nothing else in the outer body)  ->  if a and b: BODY"""
+    n = 0
+
+    def visit_If(self, node):
+        self.generic_visit(node)
+        if not node.orelse and len(node.body) == 1 and isinstance(node.body[0], ast.If) and not node.body[0].orelse:
+            MergeIf.n += 1
+            a, b = node.test, node.body[0].test
+            vals = (a.values if isinstance(a, ast.BoolOp) and isinstance(a.op, ast.And) else [a]) + (b.values if isinstance(b, ast.BoolOp) and isinstance(b.op, ast.And) else [b])
+            return ast.copy_location(ast.If(test=ast.BoolOp(op=ast.And(), values=vals), body=node.body[0].body, orelse=[]), node)
+        return node
+
+
+class CompToLoop(ast.NodeTransformer):
+    """name = [elt for x in it if c]   ->   name = []; for x in it: if c: name.append(elt)      (statement level, one generator,
+    the target name not used inside the comprehension)"""
+    n = 0
+
+    def _expand(self, st):
+        v = getattr(st, "value", None)
+        if isinstance(st, ast.Assign) and len(st.targets) == 1 and isinstance(st.targets[0], ast.Name) and isinstance(v, ast.ListComp) and len(v.generators) == 1 \
+                and not v.generators[0].is_async and st.targets[0].id not in {x.id for x in ast.walk(v) if isinstance(x, ast.Name)}:
+            g = v.generators[0]
+            # the loop variable leaks into the function scope: only when it is not used elsewhere - approximated by a fresh-looking check
+            name = st.targets[0].id
+            body = [ast.Expr(value=ast.Call(func=ast.Attribute(value=ast.Name(id=name, ctx=ast.Load()), attr="append", ctx=ast.Load()), args=[v.elt], keywords=[]))]
+            for c in reversed(g.ifs):
+                body = [ast.If(test=c, body=body, orelse=[])]
+            loop = ast.For(target=g.target, iter=g.iter, body=body, orelse=[])
+            init = ast.Assign(targets=[ast.Name(id=name, ctx=ast.Store())], value=ast.List(elts=[], ctx=ast.Load()))
+            CompToLoop.n += 1
+            return [ast.copy_location(init, st), ast.copy_location(loop, st)]
+        return [st]
+
+    def generic_visit(self, node):
+        super().generic_visit(node)
+        if isinstance(node, (ast.FunctionDef, ast.AsyncFunctionDef, ast.If, ast.For, ast.While, ast.With, ast.Try)):
+            for f in ("body", "orelse", "finalbody"):
+                v = getattr(node, f, None)
+                if isinstance(v, list) and v and isinstance(v[0], ast.stmt):
+                    out = []
+                    scope_names = None
+                    for st in v:
+                        out.extend(self._expand(st))
+                    setattr(node, f, out)
+        return node
+
+
+MODES = {"flip-compare": Flip, "swap-if-else": SwapIf, "not-in": NotIn, "return-else": ReturnElse, "split-and": SplitAnd, "merge-if": MergeIf, "comp-to-loop": CompToLoop}
 
 
 def sh(cmd, cwd=None):
